@@ -7,7 +7,7 @@
         the code evaluates there (`_assign_partition`'s choice of the least loaded potential
         consumer, `_is_balanced`, the two triggers of `_perform_reassignments`, the
         substitution of `PartitionMovements.get_partition_to_be_moved`, the final revert
-        decision of `balance`).  What it abstracts: the order in which partitions are visited
+        decision of `balance`, recomputed).  What it abstracts: the order in which partitions are visited
         (`sorted_partitions`), i.e. which enabled step is taken next, and hash-order choices;
      4. [init_current]: `_init_current_assignments` (generation conflict resolution).
    A state is a list of ownership triples (owner, (topic, partition)); the order of the list
@@ -209,11 +209,15 @@ Fixpoint prev_get (prev : prevmap) (x : tp) : option member :=
 Definition load_sc (st : triples) (sc : list member) (c : member) : nat :=
   if mem_nat c sc then load st c else 0.
 
-(* the two triggers of _perform_reassignments for partition x owned by c *)
-Definition prev_trigger (prev : prevmap) (st : triples) (sc : list member) (x : tp) (c : member)
-  : option member :=
+(* the two triggers of _perform_reassignments for partition x owned by c.  The previous
+   owner (lower-generation claimant) counts only if it is a potential consumer of x
+   (/repo c41f241); the membership test comes first, so the defaultdict is not touched for
+   a claimant that was removed as a "fixed" consumer. *)
+Definition prev_trigger (ppt : layout) (ms : members_t) (prev : prevmap) (st : triples)
+  (sc : list member) (x : tp) (c : member) : option member :=
   match prev_get prev x with
-  | Some pc => if load_sc st sc pc + 1 <? load st c then Some pc else None
+  | Some pc => if mem_nat pc (potentials ppt ms x) && (load_sc st sc pc + 1 <? load st c)
+               then Some pc else None
   | None => None
   end.
 Definition gen_trigger (ppt : layout) (ms : members_t) (st : triples) (x : tp) (c : member) : bool :=
@@ -233,7 +237,7 @@ Definition ctl_reassign (ppt : layout) (ms : members_t) (prev : prevmap) (sc : l
   | None => None
   | Some c =>
     let target_ok :=
-      match prev_trigger prev st sc x c with
+      match prev_trigger ppt ms prev st sc x c with
       | Some pc => Nat.eqb pc c'
       | None => gen_trigger ppt ms st x c
                 && opt_nat_eqb (least_loaded st (filter (fun o => potential_b ppt ms o x) sc)) c'
@@ -300,7 +304,7 @@ Definition no_trigger_b (ppt : layout) (ms : members_t) (prev : prevmap) (sc : l
   (st : triples) : bool :=
   forallb (fun e =>
     negb (movable_b ppt ms (snd e))
-    || (match prev_trigger prev st sc (snd e) (fst e) with Some _ => false | None => true end
+    || (match prev_trigger ppt ms prev st sc (snd e) (fst e) with Some _ => false | None => true end
         && negb (gen_trigger ppt ms st (snd e) (fst e)))) st.
 Definition end_ok (ppt : layout) (ms : members_t) (prev : prevmap) (sc : list member)
   (st : triples) : bool :=
@@ -315,11 +319,8 @@ Record ctl_result := {
   cr_balanced : triples      (* state after the reassignment loops, before the revert decision *)
 }.
 
-(* [obs_revert]: whether the real run restored the copy.  With an empty [prev] (no
-   conflicting claims) the decision is recomputed here and must agree; with conflicting
-   claims the defaultdict side effect of the previous-owner test can add phantom empty
-   entries to the score, so the observed decision is taken, constrained by the two cheap
-   conjuncts. *)
+(* [obs_revert]: whether the real run restored the copy; the decision is recomputed here and
+   must agree. *)
 Definition ctl_run (ppt : layout) (ms : members_t) (prev : prevmap) (st0 : triples)
   (assigns : list (tp * member)) (reassigns : list (tp * member * tp)) (obs_revert : bool)
   : option ctl_result :=
@@ -336,10 +337,7 @@ Definition ctl_run (ppt : layout) (ms : members_t) (prev : prevmap) (st0 : tripl
       if negb (end_ok ppt ms prev sc st3) then None else
       let performed := negb (isnil reassigns) in
       let rev_model := negb initializing && performed && (score st2 sc <=? score st3 sc) in
-      let agree := match prev with
-                   | [] => Bool.eqb obs_revert rev_model
-                   | _ => implb obs_revert (negb initializing && performed)
-                   end in
+      let agree := Bool.eqb obs_revert rev_model in
       if agree then
         Some {| cr_final := if obs_revert then st2 else st3; cr_reverted := obs_revert;
                 cr_prebalance := st2; cr_balanced := st3 |}
